@@ -1,0 +1,9 @@
+//go:build !verif
+
+package pruner
+
+// no-op twins of the verification hooks (build tag verif): the pruner loop is unchanged without the tag
+
+func verifPeriod(period uint32) uint32 { return period }
+
+func verifPrunableTarget(target uint32) uint32 { return target }
